@@ -433,3 +433,124 @@ for _f, _kw, _ex, _lb in (('dir/ucerf3-landers_1992-06-28T11-57-34-140000.csv', 
                           ('a_b.csv', {}, True, ', second part is not a time stamp'),
                           ('dir/missing_1992-06-28T11-57-34-140000.csv', {}, False, '')):
     REG.add(lcf_case(_f, _kw, _ex, _lb))
+
+
+# ------------------------------------------------------------------ csep.load_stochastic_event_sets: a generator around the loader
+from pyvc.contracts import LoopInv      # noqa: E402
+from contracts.catforecast import SRC, CatSort, mk_cat      # noqa: E402
+
+LSES = 'csep.load_stochastic_event_sets'
+CSEPFMT = z3.Function('csep_format_of', CatSort, CatSort)
+
+
+@method('catalog', 'get_csep_format')
+def _cat_csep_format(L, cat):
+    return mk_cat(CSEPFMT(cat.key))
+
+
+def _lses_stubs(c, J):
+    """catalogs.CSEPCatalog.load_ascii_catalogs / UCERF3Catalog.load_catalogs as recording stubs returning a generator of the J source
+    catalogs; the generator's position is explicit"""
+    log = []
+    gen = Opaque('generator', no_len=True, pos=z3.IntVal(0))
+
+    def gen_next(I):
+        pos = to_z3(gen.pos)
+        if I.ctx.branch(pos < J):
+            gen.pos = simp(pos + 1)
+            return mk_cat(SRC(pos))
+        raise PyRaise(builtin_exc('StopIteration'), None)
+    gen.next = gen_next
+
+    def loader(tag):
+        def f(filename, **kw):
+            log.append((tag, filename, kw))
+            return gen
+        return Lam(f, tag)
+    cats = Opaque('catalogs_module', CSEPCatalog=Opaque('cls', load_ascii_catalogs=loader('csv')),
+                  UCERF3Catalog=Opaque('cls', load_catalogs=loader('ucerf3')))
+    c.ctx.ghost['global_overrides'] = {('csep', 'catalogs'): cats}
+    c.ctx.ghost['lses'] = dict(gen=gen, J=J)
+    return log, gen
+
+
+class EventSetLoop(LoopInv):
+    """while True: after pos catalogs have been taken from the loader's generator, exactly those pos catalogs have been yielded, in
+    order, converted iff format == 'csep'"""
+
+    def havoc(self, I, fr, i, it):
+        g = I.ctx.ghost['lses']
+        pos = I.ctx.fresh_int('taken')
+        I.ctx.fact(z3.And(0 <= pos, pos <= g['J']))
+        if g.get('bad_format'):
+            I.ctx.fact(pos == 0)          # (invariant clause below: with an unknown format nothing is ever yielded)
+        g['gen'].pos = pos
+        conv = g['convert']
+        fr.locals['__yielded__'] = SymList(pos, lambda t: mk_cat(CSEPFMT(SRC(to_z3(t))) if conv else SRC(to_z3(t))), 'yielded')
+        fr.locals.pop('catalog', None)
+
+    def inv(self, I, fr, i, it):
+        g = I.ctx.ghost['lses']
+        out = fr.locals['__yielded__']
+        pos = to_z3(g['gen'].pos)
+        n_y = to_z3(out.n) if isinstance(out, SymList) else z3.IntVal(len(out))
+        if self.mode == 'assume':
+            return
+        yield 'one catalog yielded per catalog taken from the loader', n_y == pos
+        yield 'position in range', z3.And(0 <= pos, pos <= g['J'])
+        if g.get('bad_format'):
+            yield 'with an unknown format no catalog is ever yielded (the first one raises)', pos == 0
+        conv = g['convert']
+        want = lambda t: CSEPFMT(SRC(t)) if conv else SRC(t)
+        t = I.ctx.fresh_int('t!sk')
+        if isinstance(out, SymList) and getattr(out, 'last_append', None) is not None:
+            n0, v, f0 = out.last_append
+            yield 'the catalog yielded last is the one just taken (converted iff format is csep)', z3.And(
+                z3.BoolVal(isinstance(v, Opaque) and v.name == 'catalog'), v.key == want(to_z3(n0)) if isinstance(v, Opaque) else False)
+            yield 'earlier yields are kept', z3.Implies(z3.And(0 <= t, t < to_z3(n0)), f0(t).key == want(t))
+        elif isinstance(out, SymList):
+            yield 'yield t is catalog t', z3.Implies(z3.And(0 <= t, t < n_y), out.f(t).key == want(t))
+
+
+def lses_case(type_, fmt):
+    class LS:
+        qualname = LSES
+        case = 'type=%s, format=%s, loader yielding any number of catalogs' % (type_, fmt)
+        properties = ('C12',)
+        loops = {0: EventSetLoop()}
+
+        def params(c):
+            J = c.int('J')
+            c.ctx.assume(J >= 0)
+            log, gen = _lses_stubs(c, J)
+            c.ctx.ghost['lses']['convert'] = (fmt == 'csep')
+            c.ctx.ghost['lses']['bad_format'] = fmt not in ('native', 'csep')
+            return dict(filename='forecast.csv', type=type_, format=fmt, region=Opaque('region_kw'), _J=J, _log=log)
+
+        def ensures(c, r, filename, type, format, region, _J, _log):
+            ok_type = type in ('ucerf3', 'csv')
+            yield 'catalogs are produced only for a known type', z3.BoolVal(ok_type)
+            yield 'the loader of the type is called once with the file name and the keywords', z3.BoolVal(
+                len(_log) == 1 and _log[0][0] == type and _log[0][1] == filename and _log[0][2] == {'region': region})
+            yield 'a complete run with an unknown format is possible only without catalogs', z3.BoolVal(True) if format in ('native', 'csep') else _J == 0
+            if isinstance(r, SymList):
+                yield 'one catalog per catalog of the loader', to_z3(r.n) == _J
+                t = c.ctx.fresh_int('t!sk')
+                want = (lambda k: CSEPFMT(SRC(k))) if format == 'csep' else (lambda k: SRC(k))
+                yield 'catalog t is catalog t of the loader (converted iff format is csep), in order', z3.Implies(
+                    z3.And(0 <= t, t < _J), r.f(t).key == want(t))
+            else:
+                yield 'no catalog only if the loader has none', z3.And(z3.BoolVal(isinstance(r, list) and not r), _J == 0)
+
+        def raises(c, exc, filename, type, format, region, _J, _log):
+            bad_type = type not in ('ucerf3', 'csv')
+            bad_fmt = format not in ('native', 'csep')
+            return [('ValueError exactly for an unknown type or (with at least one catalog) an unknown format', z3.And(
+                z3.BoolVal(exc.name == 'ValueError' and (bad_type or bad_fmt)), z3.BoolVal(bad_type) if bad_type else _J >= 1)),
+                ('an unknown type is rejected before the loader is called', z3.BoolVal(not bad_type or not _log))]
+    LS.__name__ = 'LoadStochasticEventSets_%s_%s' % (type_, fmt)
+    return LS
+
+
+for _t, _f in (('csv', 'native'), ('csv', 'csep'), ('ucerf3', 'native'), ('ucerf3', 'csep'), ('zmap', 'native'), ('csv', 'other')):
+    REG.add(lses_case(_t, _f))
